@@ -252,7 +252,7 @@ func sceneBindingHistory() {
 	// refund attempt at T2 (any time): succeeds iff due
 	T2 := vf.Time("T2")
 	ctx2 := ctx.WithBlockTime(T2)
-	dueAt := T1.Add(k.ArbitrationTimeLimit(ctx)).Add(k.ComplaintRetrospect(ctx))
+	dueAt := T1.Add(vf.Params(ctx).ArbitrationTimeLimit).Add(vf.Params(ctx).ComplaintRetrospect)
 	balBefore := vf.Balance(owner)
 	_, err, p = vf.Deliver(ctx2, h, types.NewMsgRefundServiceDeposit(Svc, prov, owner))
 	chk("C20", !p, "refund-no-panic")
